@@ -428,6 +428,12 @@ def plan_C04(tier, seed):
             conts = [[{"op": "reset", "i": 1}] + ct for ct in continuations(kind, n)]
             if q:
                 conts = [conts[0], conts[2]] + ([conts[4]] if kind in ("MAX", "FAST_STOCH", "SLOW_STOCH", "CE") else [])
+            if n == 4:
+                # period 4 (thorough tier only) on a two-letter alphabet with two continuations: the full alphabet with six continuations
+                # from every state emitted 5-7 GB of behaviours per kind (43 GB for the property), more than a sandbox disk should be asked for
+                sa = {1, 3} if sa else sa
+                ba = ba[:3] if ba else ba
+                conts = [conts[0], conts[2]]
             # ... and one whose first post-reset input is not finite (state that only matters on a non-finite step)
             conts.append([{"op": "reset", "i": 1}, {"op": "tok", "i": 1, "x": "NaN"}] + continuations(kind, n)[1])
             if kind in HLC_KINDS and kind not in BAR_ONLY:
